@@ -13,10 +13,20 @@ from enum import Enum
 
 import pandas as pd
 from particle import SpinType
-from particle.particle.utilities import programmatic_name
+from particle.particle.utilities import programmatic_name as _programmatic_name
 
 from ..utils import LineFailure
 from .amplitudechain import LS, AmplitudeChain
+
+
+def programmatic_name(name):
+    """
+    Name safe to use as a variable name, for parameter and spline names (never nuclei).
+    """
+    try:
+        return _programmatic_name(name, False)
+    except TypeError:  # older versions of particle have no 'is_nucleus' argument
+        return _programmatic_name(name)
 
 
 class SF_4Body(Enum):
